@@ -1,7 +1,9 @@
 import threading as mt
 import multiprocessing as mp
 
+from pickle import dumps, loads
 from traceback import format_tb
+from multiprocessing.connection import wait
 from typing import Union, Callable, Sequence, Optional, Mapping, Iterator, Any
 
 from coba.utilities  import try_else
@@ -60,16 +62,26 @@ class ProcessLine(spawn_context.Process):
                 ),None
             else:
                 ex,tb = e,format_tb(e.__traceback__)
-        except KeyboardInterrupt as e:
+        except BaseException as e:
+            #KeyboardInterrupt, SystemExit and GeneratorExit are reported as well
             ex,tb = e,None
         else:
             ex,tb = None,None
 
+        try:
+            #an exception whose __init__ wants more than its args pickles
+            #fine but can't be rebuilt by the parent so we check beforehand
+            loads(dumps(ex))
+        except Exception:
+            ex = CobaException(f"{type(ex).__name__}: {ex}")
+
         self._send.send((ex, tb, hasattr(self._line[0],'_poisoned') and self._line[0]._poisoned))
 
     def join(self) -> None:
-        super().join()
+        #the result is received before joining because a result that doesn't
+        #fit into the pipe's buffer keeps the child in send until it is read
         self._get_result()
+        super().join()
 
     @property
     def pipeline(self) -> Line:
@@ -90,6 +102,9 @@ class ProcessLine(spawn_context.Process):
     def _get_result(self):
         with self._lock:
             if not self._recv.closed:
+                #wait until the child has either sent its result or is gone
+                #(we hold a write end as well so the pipe alone never ends)
+                wait([self._recv,self.sentinel])
                 if self._recv.poll():
                     ex,tb,po = self._recv.recv()
                     self._exception = ex
